@@ -10,20 +10,18 @@
      ExperimentSpace.from_screen -> [space_of_screen]
    Modelling decisions (each exercised by every correspondence case):
    * h5py dataset write -> read is the identity on numeric / bool arrays (bit patterns, shapes, dtypes).
-   * np.char.encode / np.char.decode (UTF-8) are mutually inverse on valid, NUL-free strings, so a
-     NON-EMPTY string array comes back unchanged.
-   * np.char.encode of an array with ZERO elements (numpy 1.26: `_vec_string` on a size-0 array) returns an
-     empty float64 array of shape (0,); h5py stores it as a float64 dataset and np.char.decode of what is read
-     back raises TypeError("string operation on non-string array").  This is [char_decode]: the decode of a
-     dataset with zero elements is an error (tag 8).  (In the list model an empty float64 dataset and an empty
-     string dataset are both [].)
+   * encode_string_array / decode_string_array (UTF-8 via np.char.encode / np.char.decode; an array with zero
+     elements becomes an empty bytes / str array OF THE SAME SHAPE) are mutually inverse on arrays of valid,
+     NUL-free strings of any shape, including shape (0,) and (0, arity).
+   * A 2-d dataset keeps its shape even without rows, so the file records the second dimension of
+     "treatment_names" / "treatment_doses" ([f_arity]); a list of rows alone would lose it when n = 0.
    * A constructed Screen's mapping id arrays always have dtype int64 (built by pandas from a RangeIndex, or
      accepted by numpy_array_is_0_indexed_integers, which rejects every other dtype), h5py keeps the dtype,
      hence the "integer dtype" flag load_h5 hands to the constructor is [true].  The harness asserts the dtypes.
    * Doses are order keys (see Model/Encode.v): -0.0 and 0.0 are identified in the model; the harness compares
      raw dose bits on the implementation.
-   * arity at load = treatment_names.shape[1] = length of the first row of the (non-empty) 2-d dataset.
-   Error tags: 1 arrays of different lengths, 8 string decode of an empty dataset; others see Model/Encode.v.
+   * arity at load = treatment_names.shape[1] = [f_arity].
+   Error tags: 1 arrays of different lengths / shapes; others see Model/Encode.v.
    No proofs here. *)
 From Coq Require Import ZArith List Bool.
 From Batchie Require Import Lib.Sexp Generated.Consts Model.Encode Model.Screen.
@@ -31,6 +29,7 @@ Import ListNotations.
 Open Scope Z_scope.
 
 Record file := {
+  f_arity : nat;                     (* shape[1] of "treatment_names" and "treatment_doses" *)
   f_tnames : list (list name);       (* "treatment_names"          n x arity *)
   f_tdoses : list (list Z);          (* "treatment_doses"          n x arity *)
   f_tids : list (list Z);            (* "treatment_ids"            n x arity *)
@@ -49,7 +48,8 @@ Record file := {
 }.
 
 Definition save (s : screen) : file :=
-  {| f_tnames := map (fun r => map fst (r_treats r)) (s_rows s);
+  {| f_arity := s_arity s;
+     f_tnames := map (fun r => map fst (r_treats r)) (s_rows s);
      f_tdoses := map (fun r => map snd (r_treats r)) (s_rows s);
      f_tids := s_tids s;
      f_tm_names := map (fun e => fst (fst e)) (s_tmap s);
@@ -64,12 +64,6 @@ Definition save (s : screen) : file :=
      f_pids := s_pids s;
      f_pnames := map r_plate (s_rows s);
      f_ctrl := s_ctrl s |}.
-
-(* np.char.decode(dataset[:], "utf-8"): fails on a dataset with no elements (see header) *)
-Definition char_decode {A} (size : nat) (x : A) : result A :=
-  if Nat.eqb size 0 then Err 8 else Ok x.
-Definition decode1 (l : list name) : result (list name) := char_decode (length l) l.
-Definition decode2 (l : list (list name)) : result (list (list name)) := char_decode (length (concat l)) l.
 
 (* arrays -> rows; None when the arrays do not have the same number of experiments / shape *)
 Fixpoint zip_rows (sn pn : list name) (tn : list (list name)) (td : list (list Z))
@@ -101,20 +95,12 @@ Fixpoint zip_nmap (ns : list name) (ids : list Z) : option nmapping :=
   | _, _ => None
   end.
 
-Definition arity_of (tn : list (list name)) : nat :=
-  match tn with r :: _ => length r | [] => 0%nat end.
-
 Definition load (f : file) : result screen :=
-  dor tn <- decode2 (f_tnames f);
-  dor sn <- decode1 (f_snames f);
-  dor pn <- decode1 (f_pnames f);
-  dor smn <- decode1 (f_sm_names f);
-  dor tmn <- decode1 (f_tm_names f);
-  match zip_rows sn pn tn (f_tdoses f) (f_obs f) (f_mask f),
-        zip_tmap tmn (f_tm_doses f) (f_tm_ids f),
-        zip_nmap smn (f_sm_ids f) with
+  match zip_rows (f_snames f) (f_pnames f) (f_tnames f) (f_tdoses f) (f_obs f) (f_mask f),
+        zip_tmap (f_tm_names f) (f_tm_doses f) (f_tm_ids f),
+        zip_nmap (f_sm_names f) (f_sm_ids f) with
   | Some rows, Some tm, Some sm =>
-      mk_screen rows (arity_of tn) (f_ctrl f) (Some (tm, true)) (Some (sm, true)) true true
+      mk_screen rows (f_arity f) (f_ctrl f) (Some (tm, true)) (Some (sm, true)) true true
   | _, _, _ => Err 1
   end.
 
@@ -155,9 +141,7 @@ Definition space_save (sp : space) : sfile :=
 (* ExperimentSpace(...) validates nothing; arrays of different lengths cannot come out of
    [space_save] and are reported as tag 1 *)
 Definition space_load (g : sfile) : result space :=
-  dor tmn <- decode1 (g_tnames g);
-  dor smn <- decode1 (g_snames g);
-  match zip_tmap tmn (g_tdoses g) (g_tids g), zip_nmap smn (g_sids g) with
+  match zip_tmap (g_tnames g) (g_tdoses g) (g_tids g), zip_nmap (g_snames g) (g_sids g) with
   | Some tm, Some sm => Ok {| sp_tmap := tm; sp_smap := sm; sp_ctrl := g_ctrl g |}
   | _, _ => Err 1
   end.
